@@ -170,6 +170,13 @@ func checkNull(c *NsxConfig) error {
 func checkRaw(c *NsxConfig) error {
 	re := regexp.MustCompile(`^r\d`)
 	for _, p := range c.Policies {
+		// Policy with other name isn't read from device
+		// and would be overwritten completely.
+		if !strings.HasPrefix(p.Id, "Netspoc") {
+			return fmt.Errorf(
+				"Must only define policy where name has prefix 'Netspoc': %s",
+				p.Id)
+		}
 		for _, r := range p.Rules {
 			if re.MatchString(r.Id) {
 				return fmt.Errorf(
